@@ -97,6 +97,7 @@ fn alloc_backing<T: El>(shape: &[usize], lay: Lay, fill: T) -> ArrayD<T> {
         .enumerate()
         .map(|(k, &d)| match lay {
             Lay::Step2 => 2 * d + 2,
+            Lay::Wide | Lay::WideRev => 9 * d + 2,
             Lay::C => {
                 if k == 0 {
                     d + 2
@@ -153,6 +154,8 @@ fn window<'a, T: El>(mut v: ArrayViewMutD<'a, T>, shape: &[usize], lay: Lay) -> 
             }
             Lay::Window | Lay::F => Slice::new(1, Some(1 + d), 1),
             Lay::Step2 => Slice::new(1, Some(1 + 2 * d), 2),
+            Lay::Wide => Slice::new(1, Some(1 + 9 * d), 9),
+            Lay::WideRev => Slice::new(1, Some(1 + 9 * d), -9),
             Lay::Rev => Slice::new(1, Some(1 + d), -1),
             Lay::Mix { .. } => unreachable!("handled above"),
         };
@@ -964,6 +967,8 @@ fn window_ref<'a, T: El>(mut v: ndarray::ArrayViewD<'a, T>, shape: &[usize], lay
             }
             Lay::Window | Lay::F => Slice::new(1, Some(1 + d), 1),
             Lay::Step2 => Slice::new(1, Some(1 + 2 * d), 2),
+            Lay::Wide => Slice::new(1, Some(1 + 9 * d), 9),
+            Lay::WideRev => Slice::new(1, Some(1 + 9 * d), -9),
             Lay::Rev => Slice::new(1, Some(1 + d), -1),
             Lay::Mix { .. } => unreachable!("handled above"),
         };
